@@ -258,12 +258,12 @@ pub fn run(tier: Tier) -> Report {
         .par_iter()
         .enumerate()
         .flat_map_iter(|(i, it)| {
-            let nvar = if it.family == "scenario-permutations" { 4 } else { 1 + (i % 4 == 0) as usize };
+            let nvar = if (it.family == "scenario-permutations" || progs::always_included(it.family)) { 4 } else { 1 + (i % 4 == 0) as usize };
             let mut out = vec![];
             let mut docs_of_item: Vec<Doc> = (0..nvar).map(|k| Doc::new(it, layouts[(i + k) % layouts.len()], vec![])).collect();
             // ... and with a comment line in every classified gap (the position behind it, on the
             // next line, is the same kind of position)
-            if it.family == "scenario-permutations" || i % 3 == 0 {
+            if (it.family == "scenario-permutations" || progs::always_included(it.family)) || i % 3 == 0 {
                 let plain = &docs_of_item[0];
                 let mut gaps: Vec<usize> = classified_gaps(plain).iter().map(|g| g.1).collect();
                 gaps.sort();
